@@ -80,7 +80,7 @@ def gen(tier, seed):
     for i in range(n_plain):
         depth = rng.choice([1, 2, 2, 3] if not thorough else [1, 2, 3, 3, 4])
         opts = dict(unions=rng.random() < 0.3, kinds=kinds, odict=rng.random() < 0.25, tuple_keys=rng.random() < 0.25)
-        T = sc.gen_dc(rng, depth, namer, opts, kind=kinds[i % 3])
+        T = sc.norm_unions(sc.gen_dc(rng, depth, namer, opts, kind=kinds[i % 3]))
         v = sc.gen_value(rng, T, opts)
         cases.append(dict(ty=T, val=v, stream="tree"))
     # 3. trees with metadata subsets
@@ -88,7 +88,7 @@ def gen(tier, seed):
     for i in range(n_hook):
         depth = rng.choice([1, 2, 2, 3] if not thorough else [1, 2, 3, 3, 4])
         opts = dict(unions=rng.random() < 0.3, kinds=kinds, hooks=0.3)
-        T = _fix_hooks(sc.gen_dc(rng, depth, namer, opts, kind=kinds[i % 3]))
+        T = _fix_hooks(sc.norm_unions(sc.gen_dc(rng, depth, namer, opts, kind=kinds[i % 3])))
         v = _sync_meta(T, sc.gen_value(rng, T, opts))
         cases.append(dict(ty=T, val=v, stream="hooks"))
     return cases
